@@ -1099,7 +1099,8 @@ impl World {
         if mv1 == mv0 {
             // not effective: nothing may have changed
             if after.map(|a| (a.0, a.1, a.2)) != before || nkeys0 != nkeys1 || gc0 != gc1 {
-                self.fail(&["C04"], "write.noop_changed_state", format!("slot{slot}: {opname}({key:?}) did not take a version but changed the entry {before:?} -> {after:?}"));
+                // the owner now holds, under an old version, something it never wrote under that version (C03 too)
+                self.fail(&["C04", "C03"], "write.noop_changed_state", format!("slot{slot}: {opname}({key:?}) did not take a version but changed the entry {before:?} -> {after:?}"));
             }
             // re-setting the current value / deleting an absent key are the only legitimate no-ops
             let legit = match op {
